@@ -20,3 +20,16 @@ Definition spec_query (s : list Z) (i e : Z) : (Z * Z) * (Z * Z) * Z * Z :=
 Definition of_size (ps : list Z) (opt : option Z) : Z := 64 * words_for (of_bits ps opt).
 Definition query_dom (ps : list Z) (opt : option Z) (i e : Z) : bool :=
   sortedb ps && nonnegb ps && (0 <=? i) && (i <=? e) && (e <=? of_size ps opt) && (i <? of_size ps opt) && (1 <=? e).
+
+(** * Of on ANY position list (unsorted, negative, beyond the size its last element implies) *)
+(** Of sizes the result from n and the LAST element only; it panics exactly when some position falls
+    outside that many bits, and otherwise sets exactly the listed set of positions *)
+Definition of_fits (ps : list Z) (opt : option Z) : bool :=
+  forallb (fun p => (0 <=? p) && (p <? of_size ps opt)) ps.
+Definition spec_Of_any (ps : list Z) (opt : option Z) (o : option (list Z)) : Prop :=
+  if of_fits ps opt then exists r, o = Some r /\ spec_Of ps opt r else o = None.
+Definition spec_Of_any_ok (ps : list Z) (opt : option Z) (o : option (list Z)) : bool :=
+  match o with
+  | Some r => of_fits ps opt && spec_Of_ok ps opt r
+  | None => negb (of_fits ps opt)
+  end.
